@@ -13,6 +13,19 @@ func TestC01(t *testing.T) {
 	params := C01Params(th)
 	checkFile(t, "C01", func(rt *rapid.T) *harness.Program {
 		p := harness.GenProgram(rt, params)
+		// sometimes the history contains an open that changes the maximum size
+		// (internal maintenance transactions at open time are crash points too)
+		if rapid.IntRange(0, 4).Draw(rt, "resize") == 0 && len(p.Items) > 0 {
+			minPages := uint(65536 / p.Cfg.PageSize)
+			newMax := minPages + uint(rapid.IntRange(0, 200).Draw(rt, "newMax"))
+			if rapid.IntRange(0, 5).Draw(rt, "unbounded") == 0 {
+				newMax = 0
+			}
+			at := rapid.IntRange(1, len(p.Items)).Draw(rt, "resizeAt")
+			items := append([]harness.Item{}, p.Items[:at]...)
+			items = append(items, harness.Item{Reopen: &harness.Reopen{Mode: 2, NewMax: newMax, Prealloc: rapid.IntRange(0, 2).Draw(rt, "prealloc") == 0}})
+			p.Items = append(items, p.Items[at:]...)
+		}
 		thr := uint64(0)
 		if th {
 			thr = 1
